@@ -405,6 +405,39 @@ func initStubs() {
 	stubTable[zzp+"FloorUF"] = func(e *Exec, st *State, fn *Func, args []Value, site string) []Outcome {
 		return stubTable["math.Floor"](e, st, fn, args, site)
 	}
+	stubTable[zzp+"FieldLen"] = func(e *Exec, st *State, fn *Func, args []Value, site string) []Outcome {
+		iv := args[0].(Iface)
+		pt, ok := iv.T.(*types.Pointer)
+		if !ok {
+			fail("FieldLen: not a pointer")
+		}
+		stt := pt.Elem().Underlying().(*types.Struct)
+		name := args[1].(*Term).S
+		for i := 0; i < stt.NumFields(); i++ {
+			if stt.Field(i).Name() == name {
+				p := iv.V.(Ptr)
+				v := e.load(st, Ptr{Obj: p.Obj, Path: pathAppend(p.Path, i)})
+				return ret(st, BVConst(uint64(v.(Slice).Len), 64))
+			}
+		}
+		fail("FieldLen: no field %s", name)
+		return nil
+	}
+	stubTable[zzp+"ClockLogLen"] = func(e *Exec, st *State, fn *Func, args []Value, site string) []Outcome {
+		l, _ := st.Ghost["clocklog"].(*Struct)
+		if l == nil {
+			return ret(st, BVConst(0, 64))
+		}
+		return ret(st, BVConst(uint64(len(l.F)), 64))
+	}
+	stubTable[zzp+"ClockAt"] = func(e *Exec, st *State, fn *Func, args []Value, site string) []Outcome {
+		l, _ := st.Ghost["clocklog"].(*Struct)
+		i, ok := concreteInt(args[0])
+		if l == nil || !ok || i < 0 || int(i) >= len(l.F) {
+			fail("ClockAt: index out of range")
+		}
+		return ret(st, l.F[i])
+	}
 	stubTable[zzp+"Symbolic"] = func(e *Exec, st *State, fn *Func, args []Value, site string) []Outcome {
 		return ret(st, True)
 	}
